@@ -128,3 +128,156 @@ fn c02_repeated_peeks_do_not_leak_credits() {
     kani::cover!(pos == 2, "peeks do not consume");
 }
 }
+
+// ---------------------------------------------------------------------------------------------------
+// C12 "once both ends of a stream have been dropped it no longer counts as established": the REAL
+// `Drop for ReadHalf` / `Drop for WriteHalf` run inside `World::enter` on a real `World` with two
+// registered hosts (no runtime is involved; `scoped-tls` is the model crate of /verif/models). For a
+// stream to a remote host or to the host itself (through its own address or 127.0.0.1), with or
+// without unread data, with the write side shut down before or not, and for both orders of dropping
+// the halves: afterwards the host's stream table has no entry for the pair. With unread data the
+// peer is told with a RST (remote: one RST in flight on the link and no FIN after it), without it a
+// FIN goes out unless one was sent by an earlier shutdown.
+use crate::envelope::{Protocol, Segment};
+use crate::host::HostTimer;
+use crate::world::World;
+use rand::RngCore;
+use std::cell::RefCell;
+
+struct CoinRng;
+impl RngCore for CoinRng {
+    fn next_u32(&mut self) -> u32 {
+        if kani::any() { 0 } else { u32::MAX }
+    }
+    fn next_u64(&mut self) -> u64 {
+        if kani::any() { 0 } else { u64::MAX }
+    }
+    fn fill_bytes(&mut self, d: &mut [u8]) {
+        for b in d {
+            *b = if kani::any() { 0 } else { 255 };
+        }
+    }
+}
+const IP_A: IpAddr = IpAddr::V4(Ipv4Addr::new(192, 168, 0, 1));
+const IP_B: IpAddr = IpAddr::V4(Ipv4Addr::new(192, 168, 0, 2));
+
+fn two_host_world() -> World {
+    let cfg = crate::Config {
+        duration: std::time::Duration::from_secs(10),
+        tick: std::time::Duration::from_millis(1),
+        epoch: std::time::SystemTime::UNIX_EPOCH,
+        ephemeral_ports: 49152..=49155,
+        tcp_capacity: 2,
+        udp_capacity: 2,
+        enable_tokio_io: false,
+        random_node_order: false,
+    };
+    // the link configuration the Builder installs (no random failures), with a fixed latency of
+    // 5 ms so that whatever is sent is still in flight - and visible through the public link
+    // iterator - when the harness looks
+    let mut latency = crate::config::Latency::default();
+    latency.min_message_latency = std::time::Duration::from_millis(5);
+    latency.max_message_latency = std::time::Duration::from_millis(5);
+    let link = crate::config::Link {
+        latency: Some(latency),
+        message_loss: Some(crate::config::MessageLoss::default()),
+    };
+    let mut w = World::new(link, Box::new(CoinRng), crate::ip::IpVersion::V4.iter(),
+                           std::time::Duration::from_millis(1));
+    w.register(IP_A, "a", HostTimer::new(std::time::Duration::ZERO, std::time::Duration::ZERO), &cfg);
+    w.register(IP_B, "b", HostTimer::new(std::time::Duration::ZERO, std::time::Duration::ZERO), &cfg);
+    w
+}
+
+/// peer: 0 = remote host, 1 = same host through its own address, 2 = same host through 127.0.0.1
+fn teardown(peer: u8, unread: bool, shutdown_first: bool, read_half_first: bool) -> (usize, usize) {
+    let mut world = two_host_world();
+    let pair = match peer {
+        0 => SocketPair::new(SocketAddr::new(IP_A, 49152), SocketAddr::new(IP_B, 80)),
+        1 => SocketPair::new(SocketAddr::new(IP_A, 49152), SocketAddr::new(IP_A, 80)),
+        _ => SocketPair::new(SocketAddr::new(IpAddr::V4(Ipv4Addr::LOCALHOST), 49152), SocketAddr::new(IpAddr::V4(Ipv4Addr::LOCALHOST), 80)),
+    };
+    let (rx, bidi) = world.hosts.get_mut(&IP_A).unwrap().tcp.new_stream(pair);
+    world.current = Some(IP_A);
+    let stream = TcpStream::new(pair, rx, bidi);
+    let TcpStream { mut read_half, mut write_half } = stream;
+    if unread {
+        let b: [u8; 1] = kani::any();
+        read_half.rx.buffer = Some(Bytes::copy_from_slice(&b));
+    }
+    assert!(world.hosts.get(&IP_A).unwrap().tcp.stream_count() == 1);
+    let cell = RefCell::new(world);
+    World::enter(&cell, || {
+        if shutdown_first {
+            let r = write_half.poll_shutdown_priv();
+            match &r {
+                Poll::Ready(Ok(())) => {}
+                _ => panic!("shutdown of a live stream succeeds"),
+            }
+            std::mem::forget(r);
+        }
+        if read_half_first {
+            drop(read_half);
+            drop(write_half);
+        } else {
+            drop(write_half);
+            drop(read_half);
+        }
+    });
+    let mut world = cell.into_inner();
+    let left = world.hosts.get(&IP_A).unwrap().tcp.stream_count();
+    assert!(left == 0, "both halves dropped: the stream no longer counts as established on this host");
+    // what went out on the wire towards the remote peer (the crate's own public link iterator)
+    let mut fins = 0;
+    let mut rsts = 0;
+    if peer == 0 {
+        for link in world.topology.iter_mut() {
+            for sent in link {
+                match sent.protocol() {
+                    Protocol::Tcp(Segment::Fin(_)) => fins += 1,
+                    Protocol::Tcp(Segment::Rst) => rsts += 1,
+                    _ => {}
+                }
+            }
+        }
+        assert!(fins <= 1 && rsts <= 1, "at most one FIN and one RST per stream");
+        if unread {
+            assert!(rsts == 1, "closing with unread data tells the peer with a RST");
+        } else {
+            assert!(rsts == 0 && fins == 1, "a graceful close sends exactly one FIN");
+        }
+    }
+    std::mem::forget(world);
+    (fins, rsts)
+}
+// (unread data towards a REMOTE peer is not an instance: the RST path followed by the sibling half's
+// drop - which finds the stream gone, builds an `io::Error` and drops it - had no verdict in 15 min
+// in either drop order; the same-host instances cover the unread-data path)
+// @verif id=C12 tier=quick role=stream_teardown timeout=900 mem=12 desc=same-host(127.0.0.1),unread-data,write-side-shut-down-first
+crate::verif_proof! { unwind = 8;
+fn c12_dropped_loopback_stream_is_released_after_shutdown() {
+    let (_f, _r) = teardown(2, true, true, true);
+    kani::cover!(true, "released");
+}
+}
+// @verif id=C12 tier=quick role=stream_teardown timeout=900 mem=12 desc=remote-peer,graceful,write-half-dropped-first
+crate::verif_proof! { unwind = 8;
+fn c12_dropped_stream_graceful_close_sends_one_fin() {
+    let (f, r) = teardown(0, false, false, false);
+    kani::cover!(f == 1 && r == 0, "one FIN");
+}
+}
+// @verif id=C12 tier=thorough role=stream_teardown timeout=900 mem=12 desc=same-host(own-address),unread-data,write-half-dropped-first
+crate::verif_proof! { unwind = 8;
+fn c12_dropped_same_host_stream_is_released() {
+    let (_f, _r) = teardown(1, true, false, false);
+    kani::cover!(true, "released");
+}
+}
+// @verif id=C12 tier=thorough role=stream_teardown timeout=900 mem=12 desc=remote-peer,shutdown-then-drop,graceful
+crate::verif_proof! { unwind = 8;
+fn c12_dropped_stream_after_shutdown_sends_no_second_fin() {
+    let (f, r) = teardown(0, false, true, true);
+    kani::cover!(f == 1 && r == 0, "only the shutdown's FIN");
+}
+}
